@@ -61,6 +61,13 @@ def views(exe, root, seed, stats):
         data = rng.bytes(rng.choice([1, 1024, 1500, 3000]))
         for k in range(2 + rng.below(3)):
             a.write(rng.choice(a.disks), 'dup%d/copy%d_%d' % (g, k, rng.below(1000)), data, s.tick())
+    if seed % 4 == 0:
+        # long files (hundreds of blocks): a true pair, and near-duplicates that share size and tail but differ early
+        nblk = 257 + rng.below(300)
+        big = rng.bytes(nblk * a.block - rng.below(a.block))
+        near = bytearray(big); near[rng.below(a.block * 100)] ^= 0x31
+        a.write(a.disks[0], 'big/one', big, s.tick()); a.write(a.disks[-1], 'big/two', big, s.tick())
+        a.write(rng.choice(a.disks), 'big/near', bytes(near), s.tick())
     for _ in range(3): s.fs_create()
     s.fs_link(); s.fs_link(); s.fs_dir()
     s.sync()
